@@ -254,10 +254,13 @@ def scenario_consumer(rnd, n):
 # ---------------------------------------------------------------------------------------------- client (C01 C07 C20 C08)
 
 def scenario_broker_aware(rnd, n):
-    """_send_broker_aware_request: responses in payload order; failed brokers' payloads all accounted for (any acks)"""
+    """_send_broker_aware_request: every payload goes to the broker the metadata names as leader of its partition (or to
+    the group's coordinator), one request per broker carrying exactly that broker's payloads; responses in payload order;
+    failed brokers' payloads all accounted for (any acks); brokers answer in any order"""
     from unittest.mock import Mock
     from afkak import KafkaClient
-    from afkak.common import BrokerMetadata, ProduceRequest, ProduceResponse, TopicAndPartition, FailedPayloadsError
+    from afkak.common import (BrokerMetadata, ProduceRequest, ProduceResponse, TopicAndPartition, FailedPayloadsError,
+                              LeaderUnavailableError, CoordinatorNotAvailable)
 
     def one(r, script):
         clock = task.Clock()
@@ -267,43 +270,96 @@ def scenario_broker_aware(rnd, n):
         parts = [('t%d' % r.choice([1, 2]), p) for p in range(r.choice([1, 2, 3, 4]))]
         parts = list(dict.fromkeys(parts))
         r.shuffle(parts)
+        group = 'g' if r.random() < 0.25 else None
+        leaderless = None
         for (t, p) in parts:
             client.topics_to_brokers[TopicAndPartition(t, p)] = r.choice(brokers)
+        if group is not None:
+            coord = r.choice(brokers + [None])
+            client._group_to_coordinator[group] = coord
+            client.load_coordinator_for_group = lambda g: defer.succeed(None)
+        elif r.random() < 0.15:
+            leaderless = r.choice(parts)
+            client.topics_to_brokers[TopicAndPartition(*leaderless)] = None
+            client.load_metadata_for_topics = lambda *t: defer.succeed(None)
         acks = r.choice([0, 1])
         fails = {b.node_id for b in brokers if r.random() < 0.4}
-        script.extend([('acks', acks), ('parts', parts), ('fails', sorted(fails))])
-        sent = {}
+        script.extend([('acks', acks), ('parts', parts), ('fails', sorted(fails)), ('group', group), ('leaderless', leaderless)])
+        requests = []                                # (node_id, payloads carried, deferred, expectResponse)
+        carried = {}
+
+        def encoder(client_id, correlation_id, payloads):
+            tok = b'req%d' % correlation_id
+            carried[tok] = list(payloads)
+            return tok
 
         def mrtb(broker, requestId, request, expectResponse=True, **kw):
-            sent[broker.node_id] = sent.get(broker.node_id, 0) + 1
-            if broker.node_id in fails:
-                return defer.fail(Failure(RuntimeError('broker %d down' % broker.node_id)))
-            return defer.succeed(('resp', broker.node_id) if expectResponse else None)
+            d = defer.Deferred()
+            requests.append((broker.node_id, carried[request], d, expectResponse))
+            return d
 
         client._make_request_to_broker = mrtb
         client._get_brokerclient = lambda node_id: Mock(node_id=node_id)
         payloads = [ProduceRequest(t, p, []) for (t, p) in parts]
-        by_broker = {}
-        for pl in payloads:
-            by_broker.setdefault(client.topics_to_brokers[TopicAndPartition(pl.topic, pl.partition)].node_id, []).append(pl)
+
+        leaders0 = dict(client.topics_to_brokers)      # as the metadata stood when the request was made
+        coord0 = client._group_to_coordinator.get(group)
+
+        def leader_of(pl):
+            if group is not None:
+                return coord0
+            return leaders0[TopicAndPartition(pl.topic, pl.partition)]
+
+        want_by_broker = {}
+        if not (group is not None and coord is None) and leaderless is None:
+            for pl in payloads:
+                want_by_broker.setdefault(leader_of(pl).node_id, []).append(pl)
 
         def decode(resp):
-            return [ProduceResponse(pl.topic, pl.partition, 0, 1) for pl in by_broker[resp[1]]]
+            return [ProduceResponse(pl.topic, pl.partition, 0, 1) for pl in want_by_broker[resp[1]]]
 
         out = []
-        d = client._send_broker_aware_request(payloads, lambda **kw: b'req', decode if acks else None)
+        d = client._send_broker_aware_request(payloads, encoder, decode if acks else None, consumer_group=group)
         d.addBoth(out.append)
+        if leaderless is not None or (group is not None and coord is None):
+            exp = LeaderUnavailableError if leaderless is not None else CoordinatorNotAvailable
+            if requests:
+                raise Hit('C07:request-sent-although-a-payload-has-no-leader', [q[0] for q in requests])
+            if not out or not isinstance(out[0], Failure) or not out[0].check(exp):
+                raise Hit('C07:no-leader-not-reported', repr(out)[:200])
+            return
+        # routing: one request per responsible broker, carrying exactly that broker's payloads
+        got_by_broker = {}
+        for nid, pls, _, _ in requests:
+            if nid in got_by_broker:
+                raise Hit('C07:more-than-one-request-per-broker', nid)
+            got_by_broker[nid] = pls
+        norm = lambda m: {k: sorted(map(repr, v)) for k, v in m.items()}      # exactly its payloads, in any order
+        if norm(got_by_broker) != norm(want_by_broker):
+            raise Hit('C07:payloads-not-routed-to-their-leader', (repr(got_by_broker)[:300], repr(want_by_broker)[:300]))
+        if out:
+            raise Hit('C07:completed-before-every-broker-answered', repr(out)[:100])
+        order = list(requests)
+        r.shuffle(order)
+        for nid, pls, rd, expect in order:            # brokers answer in any order
+            if out:
+                raise Hit('C07:completed-before-every-broker-answered', repr(out)[:100])
+            if expect != bool(acks):
+                raise Hit('C01:response-expectation-does-not-follow-acks', (expect, acks))
+            if nid in fails:
+                rd.errback(Failure(RuntimeError('broker %d down' % nid)))
+            else:
+                rd.callback(('resp', nid) if expect else None)
         if not out:
             raise Hit('C07:request-did-not-complete')
         res = out[0]
-        for nid, cnt in sent.items():
-            if cnt != 1:
-                raise Hit('C07:more-than-one-request-per-broker', sent)
-        expected_failed = [pl for pl in payloads if client_leader(by_broker, pl) in fails]
+        expected_failed = [pl for pl in payloads if leader_of(pl).node_id in fails]
         if expected_failed:
             if not isinstance(res, Failure) or not res.check(FailedPayloadsError):
                 raise Hit('C07:failed-payloads-not-reported' if acks else 'C01+C07:acks0-send-reported-success-although-broker-failed',
                           repr(res)[:200])
+            if client.topics_to_brokers or client.topic_partitions or client._group_to_coordinator:
+                raise Hit('C08:failed-send-did-not-invalidate-cached-routing', sorted(map(repr, client.topics_to_brokers)))
             got_failed = [p for p, f in res.value.failed_payloads]
             if sorted(map(repr, got_failed)) != sorted(map(repr, expected_failed)):
                 raise Hit('C07:failed-payloads-do-not-account-for-every-payload', (got_failed, expected_failed))
@@ -313,10 +369,104 @@ def scenario_broker_aware(rnd, n):
                 raise Hit('C07:unexpected-failure', repr(res)[:200])
             resps = res
         if acks:
-            want = [(pl.topic, pl.partition) for pl in payloads if client_leader(by_broker, pl) not in fails]
+            want = [(pl.topic, pl.partition) for pl in payloads if leader_of(pl).node_id not in fails]
             if [(x.topic, x.partition) for x in resps] != want:
                 raise Hit('C07:responses-not-in-payload-order', (resps, want))
     return _run(rnd, n, one)
+
+
+def scenario_broker_unaware(rnd, n):
+    """_send_broker_unaware_request / _send_bootstrap_request: a broker-agnostic request is tried on every known broker,
+    connected ones first, then on every bootstrap host, before the caller sees KafkaUnavailableError; the first answer ends
+    the search.  Exhaustive over 0..3 known brokers x connected/failing subsets x 1..2 bootstrap hosts x outcomes."""
+    from unittest.mock import Mock
+    from afkak import KafkaClient
+    from afkak.common import BrokerMetadata, KafkaUnavailableError, RequestTimedOutError
+
+    def one(r, script):
+        clock = task.Clock()
+        nh = r.choice([1, 2])
+        client = KafkaClient(hosts=','.join('boot%d:9' % i for i in range(nh)), reactor=clock,
+                             enable_protocol_version_discovery=False)
+        nb = r.choice([0, 1, 2, 3])
+        tried = []
+        ok = {}
+        conn = {}
+        for i in range(1, nb + 1):
+            client._brokers[i] = BrokerMetadata(i, 'b%d' % i, 9092)
+            conn[i] = r.choice([True, False])
+            ok[i] = r.choice([False, True])
+            if conn[i] or r.choice([True, False]):
+                client.clients[i] = Mock(node_id=i, host='b%d' % i, port=9092, connected=lambda c=conn[i]: c)
+        boot_ok = {'boot%d' % i: r.choice(['refused', 'fails', 'answers']) for i in range(nh)}
+        script.extend([('connected', conn), ('answers', ok), ('clients', sorted(client.clients)), ('bootstrap', boot_ok)])
+        client._get_brokerclient = lambda nid: client.clients.get(nid) or Mock(node_id=nid, host='b%d' % nid, port=9092)
+
+        def mrtb(broker, requestId, request, **kw):
+            tried.append(('broker', broker.node_id))
+            if ok[broker.node_id]:
+                return defer.succeed(('resp', broker.node_id))
+            return defer.fail(Failure(RequestTimedOutError('no answer from %d' % broker.node_id)))
+
+        client._make_request_to_broker = mrtb
+
+        class Proto:
+            def __init__(self, host):
+                self.host = host
+                self.transport = Mock()
+
+            def request(self, req):
+                if boot_ok[self.host] == 'answers':
+                    return defer.succeed(('resp', self.host))
+                return defer.fail(Failure(RuntimeError('bootstrap request failed')))
+
+        class EP:
+            def __init__(self, reactor, host, port):
+                self.host = host
+
+            def connect(self, factory):
+                tried.append(('bootstrap', self.host))
+                if boot_ok[self.host] == 'refused':
+                    return defer.fail(Failure(ConnectionRefusedError()))
+                return defer.succeed(Proto(self.host))
+
+        client._endpoint_factory = EP
+        out = []
+        d = client._send_broker_unaware_request(1, b'request')
+        d.addBoth(out.append)
+        if not out:
+            raise Hit('C07:broker-agnostic-request-did-not-complete', tried)
+        kinds = [k for k, _ in tried]
+        if 'bootstrap' in kinds and 'broker' in kinds[kinds.index('bootstrap'):]:
+            raise Hit('C07:bootstrap-host-tried-before-a-known-broker', tried)
+        bs = [x for k, x in tried if k == 'broker']
+        seen_unconnected = False
+        for x in bs:
+            if not conn[x]:
+                seen_unconnected = True
+            elif seen_unconnected:
+                raise Hit('C07:unconnected-broker-tried-before-a-connected-one', tried)
+        if len(set(tried)) != len(tried):
+            raise Hit('C07:same-server-tried-twice', tried)
+        winner = next((i for i in bs if ok[i]), None)
+        res = out[0]
+        if winner is not None:
+            if res != ('resp', winner) or tried[-1] != ('broker', winner):
+                raise Hit('C07:first-answer-does-not-end-the-search', (tried, repr(res)[:100]))
+            return
+        if set(bs) != set(client._brokers):
+            raise Hit('C07:known-broker-not-tried-before-falling-back', (tried, sorted(client._brokers)))
+        hs = [x for k, x in tried if k == 'bootstrap']
+        bwin = next((h for h in hs if boot_ok[h] == 'answers'), None)
+        if bwin is not None:
+            if res != ('resp', bwin) or tried[-1] != ('bootstrap', bwin):
+                raise Hit('C07:first-answer-does-not-end-the-search', (tried, repr(res)[:100]))
+            return
+        if set(hs) != set(boot_ok):
+            raise Hit('C07:unavailable-reported-before-every-bootstrap-host-was-tried', (tried, sorted(boot_ok)))
+        if not isinstance(res, Failure) or not res.check(KafkaUnavailableError):
+            raise Hit('C07:exhausted-search-not-reported-as-unavailable', repr(res)[:200])
+    return _run_exhaustive(one, 10 ** 6)
 
 
 def client_leader(by_broker, pl):
@@ -406,24 +556,73 @@ def scenario_metadata_merge(rnd, n):
     from afkak import KafkaClient
     from afkak.common import BrokerMetadata, TopicMetadata, PartitionMetadata, TopicAndPartition
 
+    class FakeBC:
+        def __init__(self, meta):
+            self.meta = meta
+            self.closed = False
+            self.node_id = meta.node_id
+
+        def updateMetadata(self, meta):
+            self.meta = meta
+
+        def close(self):
+            self.closed = True
+            return defer.succeed(None)
+
+        def connected(self):
+            return True
+
     def one(r, script):
         clock = task.Clock()
         client = KafkaClient(hosts='h:1', reactor=clock, enable_protocol_version_discovery=False)
         model = {}
+        known = {}
         for step in range(r.choice([2, 3, 4])):
-            brokers = {i: BrokerMetadata(i, 'h%d' % i, 9000 + i) for i in range(1, r.choice([2, 3, 4]))}
+            ids = r.sample([1, 2, 3, 4], r.choice([0, 1, 2, 3]) if step else r.choice([1, 2, 3]))
+            gen = r.choice([0, 1])
+            brokers = {i: BrokerMetadata(i, 'h%d-%d' % (i, gen), 9000 + i + gen) for i in ids} or \
+                {1: BrokerMetadata(1, 'h1-%d' % gen, 9001 + gen)}
+            if not ids:
+                brokers_for_call = {}
+            else:
+                brokers_for_call = brokers
+            full = r.choice([True, False])
+            # broker clients exist for some known brokers (as after requests were made to them)
+            for i, bm in list(client._brokers.items()):
+                if i not in client.clients and r.random() < 0.7:
+                    client.clients[i] = FakeBC(bm)
+            before_clients = dict(client.clients)
+            script.append(('brokers', sorted(brokers_for_call), 'full' if full else 'partial', 'gen', gen))
             topics = {}
             for t in r.sample(['a', 'b', 'c'], r.choice([1, 2])):
                 nparts = r.choice([0, 1, 2, 3])
                 err = 0 if nparts else r.choice([3, 5])
-                parts = {p: PartitionMetadata(t, p, 0, r.choice(list(brokers) + [-1]), (1,), (1,)) for p in
+                parts = {p: PartitionMetadata(t, p, 0, r.choice(list(brokers_for_call) + [-1]), (1,), (1,)) for p in
                          r.sample(range(5), nparts)}
                 topics[t] = TopicMetadata(t, err, parts)
             script.append(('merge', {t: (tm.topic_error_code, {p: pm.leader for p, pm in tm.partition_metadata.items()})
                                      for t, tm in topics.items()}))
-            client._merge_topic_metadata(brokers, topics, fetched_all_topics=False)
+            client._merge_topic_metadata(brokers_for_call, topics, fetched_all_topics=full)
+            # broker addresses equal what the response said; clients of brokers missing from a full refresh are closed
+            known.update(brokers_for_call)
+            for i, bm in known.items():
+                if client._brokers.get(i) != bm:
+                    raise Hit('C08:broker-address-differs-from-response', (i, client._brokers.get(i), bm))
+            for i, bc in before_clients.items():
+                if i in brokers_for_call:
+                    if bc.meta != brokers_for_call[i]:
+                        raise Hit('C08:connected-broker-client-not-told-the-new-address', (i, bc.meta, brokers_for_call[i]))
+                    if bc.closed or client.clients.get(i) is not bc:
+                        raise Hit('C08:client-of-a-listed-broker-closed', i)
+                elif full and brokers_for_call:
+                    if not bc.closed or i in client.clients:
+                        raise Hit('C08:connection-to-broker-missing-from-full-refresh-not-closed', i)
+                elif full:
+                    pass        # a full refresh naming no broker at all: the statement does not say (afkak keeps them)
+                elif bc.closed or client.clients.get(i) is not bc:
+                    raise Hit('C08:broker-client-closed-by-a-partial-refresh', i)
             for t, tm in topics.items():
-                model[t] = (tm.topic_error_code, {p: (brokers[pm.leader] if pm.leader != -1 else None)
+                model[t] = (tm.topic_error_code, {p: (brokers_for_call[pm.leader] if pm.leader != -1 else None)
                                                   for p, pm in tm.partition_metadata.items()})
             for t, (err, parts) in model.items():
                 if client.topic_errors.get(t) != err:
@@ -441,6 +640,71 @@ def scenario_metadata_merge(rnd, n):
                     if client.topics_to_brokers.get(TopicAndPartition(t, p)) != b:
                         raise Hit('C08:leader-differs-from-response', (t, p))
     return _run(rnd, n, one)
+
+
+def scenario_handle_responses(rnd, n):
+    """_handle_responses: a not-leader / unknown-partition answer invalidates exactly that topic's cached routing, a
+    coordinator error the group's coordinator; other answers leave the cache alone.  Exhaustive over error codes x
+    fail_on_error x 1..2 responses."""
+    from afkak import KafkaClient
+    from afkak.common import (BrokerMetadata, TopicAndPartition, ProduceResponse, BrokerResponseError)
+
+    def one(r, script):
+        clock = task.Clock()
+        client = KafkaClient(hosts='h:1', reactor=clock, enable_protocol_version_discovery=False)
+        b = BrokerMetadata(1, 'h', 1)
+        for t in ('a', 'b'):
+            client.topic_partitions[t] = [0, 1]
+            client.topic_errors[t] = 0
+            for p in (0, 1):
+                client.topics_to_brokers[TopicAndPartition(t, p)] = b
+        client._group_to_coordinator['g'] = b
+        client._group_to_coordinator['other'] = b
+        group = r.choice([None, 'g'])
+        # coordinator error codes only occur in answers to group requests (which pass the group)
+        codes = [r.choice([0, 3, 6, 1, 7] + ([14, 15, 16] if group else [])) for _ in range(r.choice([1, 2]))]
+        topics = [r.choice(['a', 'b']) for _ in codes]
+        fail = r.choice([True, False])
+        script.extend([('codes', codes), ('topics', topics), ('fail_on_error', fail), ('group', group)])
+        resps = [ProduceResponse(t, 0, c, 5) for t, c in zip(topics, codes)]
+        try:
+            client._handle_responses(resps, fail, consumer_group=group)
+            raised = None
+        except BrokerResponseError as e:
+            raised = e
+        # responses are handled in order up to the first one that raises
+        stale_topics, stale_group, stop = set(), False, False
+        must_raise = False
+        for t, c in zip(topics, codes):
+            if c in (3, 6):
+                stale_topics.add(t)
+                if fail:
+                    must_raise = True
+                    break
+            elif c in (14, 15, 16):
+                stale_group = True
+                if fail:
+                    must_raise = True
+                    break
+            elif c != 0:
+                must_raise = True          # any other broker error is raised to the caller (raise_for_errno)
+                break
+        for t in ('a', 'b'):
+            cached = t in client.topic_partitions or any(k.topic == t for k in client.topics_to_brokers)
+            if t in stale_topics and cached:
+                raise Hit('C08:stale-routing-kept-after-not-leader-or-unknown-partition', (t, codes))
+            if t not in stale_topics and (client.topic_partitions.get(t) != [0, 1] or
+                                          any(client.topics_to_brokers.get(TopicAndPartition(t, p)) != b for p in (0, 1))):
+                raise Hit('C08:routing-of-an-unaffected-topic-dropped', (t, codes))
+        if group is not None and stale_group and 'g' in client._group_to_coordinator:
+            raise Hit('C08:stale-coordinator-kept-after-coordinator-error', codes)
+        if 'other' not in client._group_to_coordinator or (not stale_group and 'g' not in client._group_to_coordinator):
+            raise Hit('C08:coordinator-of-an-unaffected-group-dropped', codes)
+        if must_raise and raised is None:
+            raise Hit('C08:broker-error-swallowed', codes)
+        if not must_raise and raised is not None:
+            raise Hit('C08:unexpected-exception-%s' % type(raised).__name__, codes)
+    return _run_exhaustive(one, 10 ** 6)
 
 
 # ---------------------------------------------------------------------------------------------- brokerclient (C06)
@@ -764,7 +1028,7 @@ def scenario_group(rnd, n):
 
 
 SCENARIOS = {
-    'consumer': scenario_consumer, 'broker_aware': scenario_broker_aware, 'client_close': scenario_client_close,
+    'consumer': scenario_consumer, 'broker_aware': scenario_broker_aware, 'broker_unaware': scenario_broker_unaware, 'handle_responses': scenario_handle_responses, 'client_close': scenario_client_close,
     'metadata_merge': scenario_metadata_merge, 'brokerclient': scenario_brokerclient, 'assignment': scenario_assignment,
     'partitioner': scenario_partitioner, 'group': scenario_group,
 }
